@@ -70,8 +70,10 @@ def rule_wouldblock(ctx):
               "the send error handler must suspend with 1 and retry for EWOULDBLOCK/EAGAIN and re-raise "
               "everything else", fs.loc())
     src = [norm(n.ast) for n in g.nodes if n.kind in ("stmt",) and n.ast is not None]
-    ok = "bytesSent = self.sock.send(data)" in src and "data = data[bytesSent:]" in src
-    t = [x for x in g.nodes if x.kind == "test" and norm(x.expr) == "bytesSent == len(data)"]
+    from .common import pmatch
+    b_ = pmatch(["$n = self.sock.send(data)", "data = data[$n:]"], src)
+    ok = b_ is not None
+    t = [x for x in g.nodes if x.kind == "test" and b_ and norm(x.expr) == "%s == len(data)" % b_["n"]]
     ok = ok and bool(t) and any(m.kind == "return" for m in g.succ_on(t[0], "T"))
     ctx.check(R, ok, fs.qname, "complete send returns; partial send keeps the unsent tail",
               "_sockSendAll must return when everything was sent and otherwise keep exactly data[bytesSent:]",
@@ -84,13 +86,28 @@ def rule_wouldblock(ctx):
     for y in ys:
         ctx.check(R, y.ast.value.value.value == 0, fr.qname, "receive suspension yields 0 (want read) #%d" % y.line,
                   "_sockRecvAll suspends with %r instead of 0 (want read)" % y.ast.value.value.value, fr.loc(y.ast))
+    from .common import resolved_text
     src = [norm(n.ast) for n in gr.nodes if n.kind == "stmt" and n.ast is not None]
-    ctx.check(R, "socketBytes = self.sock.recv(length - len(buf))" in src, fr.qname,
+    rsrc = src + [resolved_text(fr.node, n.ast) for n in gr.nodes if n.kind == "stmt" and n.ast is not None
+                  and isinstance(n.ast, ast.Assign)]
+    rb = pmatch(["$c = self.sock.recv(length - len($b))", "$b += bytearray($c)"], rsrc + src)
+    if rb is None:      # the request size hoisted into a local: resolve the call's argument
+        for n in gr.nodes:
+            if n.kind == "stmt" and isinstance(n.ast, ast.Assign) and isinstance(n.ast.value, ast.Call) \
+                    and norm(n.ast.value.func) == "self.sock.recv" and n.ast.value.args:
+                arg = resolved_text(fr.node, n.ast.value.args[0])
+                rb = pmatch(["length - len($b)"], [arg])
+                if rb is not None:
+                    rb["c"] = norm(n.ast.targets[0])
+                    if ("%s += bytearray(%s)" % (rb["b"], rb["c"])) not in src:
+                        rb = None
+    ctx.check(R, rb is not None, fr.qname,
               "each recv asks for exactly the missing bytes",
               "_sockRecvAll must request exactly length - len(buf) bytes (more would swallow the next record, "
               "a constant would depend on chunking)", fr.loc())
-    vy = [n for n in gr.nodes if is_value_yield(n) and norm(n.ast) == "yield buf"]
-    t = [x for x in gr.nodes if x.kind == "test" and norm(x.expr) == "len(buf) == length"]
+    B = rb["b"] if rb else "buf"
+    vy = [n for n in gr.nodes if is_value_yield(n) and norm(n.ast) == "yield %s" % B]
+    t = [x for x in gr.nodes if x.kind == "test" and norm(x.expr) == "len(%s) == length" % B]
     okd = bool(t) and len(vy) == 2 and any(v in gr.succ_on(t[0], "T") for v in vy)
     z = [x for x in gr.nodes if x.kind == "test" and norm(x.expr) == "length == 0"]
     okd = okd and bool(z) and any(v in gr.succ_on(z[0], "T") for v in vy)
@@ -101,7 +118,7 @@ def rule_wouldblock(ctx):
     ctx.check(R, ok, fr.qname, "would-block on receive: yield 0, retry; other errors re-raised",
               "the receive error handler must suspend with 0 and retry for EWOULDBLOCK/EAGAIN and re-raise "
               "everything else", fr.loc())
-    app = [n for n in gr.nodes if n.kind == "stmt" and norm(n.ast) == "buf += bytearray(socketBytes)"]
+    app = [n for n in gr.nodes if n.kind == "stmt" and rb and norm(n.ast) == "%s += bytearray(%s)" % (rb["b"], rb["c"])]
     ctx.check(R, len(app) == 1, fr.qname, "received bytes appended in order", "received bytes must be appended "
               "to the buffer", fr.loc())
 
